@@ -77,4 +77,20 @@ def run(rep, tier, seed, replay=None):
                 out.append(("duplicate-accepted:" + v.fam, f"duplication {what} gives a different successful response {got[:160]}"))
         return out
 
-    vlib.correspond(rep, netprops.corpus("C08") + base_lines + cases, oracle=oracle, trivial=netprops.trivial, tag="c08")
+    # corpus lines may carry ` ## MUSTERR`: a past duplicate/foreign-fragment witness that has to end in an error
+    corpus, musterr = [], set()
+    for l in netprops.corpus("C08"):
+        line, _, tag = l.partition(" ## ")
+        corpus.append(line)
+        if tag.strip() == "MUSTERR":
+            musterr.add(line.split(" ", 1)[0])
+    inner = oracle
+
+    def oracle2(case, impl, model, panic):
+        out = inner(case, impl, model, panic)
+        cid = case.split(" ", 1)[0]
+        if cid in musterr and not vlib.result_of(impl).startswith("ERR "):
+            out.append(("duplicate-accepted:corpus", f"{cid}: a recorded duplicate / foreign fragment witness is accepted again: {vlib.result_of(impl)[:160]}"))
+        return out
+
+    vlib.correspond(rep, corpus + base_lines + cases, oracle=oracle2, trivial=netprops.trivial, tag="c08")
